@@ -198,6 +198,11 @@ theorem holdout_reports {α} (draw : Nat → Nat) (p run : Nat) (hasEva : Bool) 
   simp only
   split <;> simp_all
 
+/-- the model satisfies the relation (with the clear count) the driver decides on observed hold-out calls -/
+theorem holdout_stepR {α} (draw : Nat → Nat) (p run : Nat) (hasEva : Bool) (s : Sets α) (hn : 1 ≤ s.tr.length) :
+    HoldoutStepR p run hasEva s (holdoutInitR draw p run hasEva s).st (holdoutInitR draw p run hasEva s).clears :=
+  ⟨holdout_step draw p run s hn, rfl⟩
+
 /-! ## the model is the code: extracted tables (tools/translate_validation.py → Gen.lean) -/
 
 /-- the container programs extracted from the CURRENT source are the ones the model stands for -/
@@ -374,6 +379,19 @@ theorem holdout_percentage_zero {α} (draw : Nat → Nat) (s : Sets α) (hn : 1 
 theorem change_reported (c : Cfg) (hs : c.strat ≠ .holdout false) (e : Ev) (he : isCall e) (x : PS)
     (hch : ids (step c e x).s.tr ≠ ids x.s.tr) : (step c e x).clT = x.clT + 1 :=
   change_is_reported c hs e he x hch
+
+/-- **What a monitor of a real DSS search sees** is what the driver decides: an evaluator pass changes
+    only difficulties (`EvalRel`); from one callback to the next of the same run `GenObs`; from any earlier
+    moment to the first callback of a run `FreshObs`; from the last callback to the end of the run `EndObs`. -/
+theorem observations_are_model (c : Cfg) (hd : c.strat = .dss) (hts : TsOK c.ts) (x : PS) (h2 : 2 ≤ x.size) :
+    (∀ f, EvalRel x.s (step c (.evalT f) x).s ∧ EvalRel x.s (step c (.evalV f) x).s) ∧
+    (∀ g gp, GenObs c.gap g x.s (final c (genEv g gp) x).s) ∧
+    (∀ pre r o f gp, FreshObs x.s (final c (pre ++ ([.init r o, .evalT f] ++ genEv 0 gp)) x).s) ∧
+    (∀ r rp, EndObs x.s (final c (tailEv r rp) x).s) :=
+  ⟨fun f => ⟨evalT_rel c f x, evalV_rel c f x⟩,
+   fun g gp => dss_generation_obs c hd hts g gp x h2,
+   fun pre r o f gp => dss_fresh_obs c hd hts pre r o f gp x h2,
+   fun r rp => dss_end_obs c hd r rp x⟩
 
 theorem installed_strategies_report :
     ∀ row ∈ Tables.installs, ∃ st, stratOf row = some st ∧ st ≠ .holdout false := installed_report
